@@ -19,7 +19,9 @@ RULE = ('complete 256 x 256 flag x allowed-flags matrix for CHECK_SIG and CHECK_
         'malformed operand is applied; distinct by (subset, flag, allowed, op, corruption kind and position).')
 ASSUMPTIONS = ['vt/ed25519_ref.py (RFC 8032) is the verification oracle for the sampled part; the complete matrix uses '
                'libsodium-made signatures whose validity is established by construction and spot-checked by the reference',
-               'after a key / signature bit flip only "not true" is required (invalid encodings may be rejected either way)']
+               'after a key / signature bit flip only "not true" is required (invalid encodings may be rejected either way)',
+               'the selected message fits the item-size limit of the run: the message is a stack item (GET_MESSAGE), and C07 requires an '
+               'execution error for anything that would exceed a limit, so a longer message is an error for sign and check alike']
 
 
 def msg_of(fields, flag):
